@@ -10,7 +10,8 @@ VARIABLES row
 vars == <<row>>
 
 Results == {"R0", "R1", "R2"}
-Leaves == {Leaf("E1"), Leaf("E2"), Leaf("E3"), Leaf("TV"), Leaf("TP")}
+\* (TX: a typed error whose type has the same underlying representation as TV's - a different type all the same)
+Leaves == {Leaf("E1"), Leaf("E2"), Leaf("E3"), Leaf("TV"), Leaf("TP"), Leaf("TX")}
 Grow(S) == S \cup {Wrap("W", x) : x \in S} \cup {Wrap("WT", x) : x \in S} \cup {Join(x, y) : x \in S, y \in S}
 RECURSIVE TermsUpTo(_)
 TermsUpTo(d) == IF d = 0 THEN Leaves ELSE Grow(TermsUpTo(d - 1))
